@@ -36,6 +36,21 @@ class LoggingDict(dict):
         return v
 
 
+class Spy:
+    """Identity function with an independent call counter (C20)."""
+
+    def __init__(self, sid):
+        self.sid = sid
+        self.calls = 0
+
+    def __call__(self, x):
+        self.calls += 1  # under the GIL; exactness is only required without multi-worker prefetch
+        return x
+
+    def __repr__(self):
+        return f'Spy({self.sid})'
+
+
 class Env:
     """Per-build context: call log shared by every instrumented function of one built pipeline."""
 
@@ -138,6 +153,11 @@ def build(node, env=None, path='r'):
     if op == 'boom':
         return done(ds.map(env.fn(path, functools.partial(progs.f_boom, node['m'], node['r'], node['exc'],
                                                           node['fn']))))
+    if op == 'spy':
+        spy = Spy(node['sid'])
+        env.spies = getattr(env, 'spies', {})
+        env.spies[node['sid']] = spy
+        return done(ds.map(spy))
     if op == 'mapc':
         def comp(v, fns=tuple(node['fns'])):
             for i in fns:
